@@ -20,8 +20,10 @@ import PdfModel.Model.OpenBytes
   c09.bytes <start> <len> <startxref> <objs> <secs> <info> <ids> <ops>
      the same base (object values reduced to their markers), the loaded info dictionary (`n`: none) and
      the /ID strings (`~`-separated, `-`: none) as values in the notation of Drv/Obj.lean, and a history
-     `c=<val>` `u=<id>=<val>` `p` `f=<id>=<val>` `s` (`;`-separated) with full values: `save` is the byte
-     model `SaveBytes.saveB`; the answer of a save is `ok/<hex of the bytes it appended>`
+     `c=<val>` `u=<id>=<val>` `p` `f=<id>=<val>` `s=<typed 0|1>` (`;`-separated) with full values: `save` is the
+     byte model `SaveBytes.saveB` (`typed`: does the catalog load as a catalog in the current state — decides whether
+     the save fails after its revision was written); the answer of a successful save is `ok/<hex of the bytes appended
+     since the last successful save>`
   c09.open <hex>              the byte-level open path (`OpenBytes.openB`: header, startxref, section readers for
                               tables and streams, /Prev walk, merge) on a whole file
                               → `ok <start> <size> <prev|n> <entries>` | `err` | `panic`
@@ -89,7 +91,7 @@ def parseOp (s : String) : Option DOp :=
     let ls ← parseLens lens
     let x ← natOf xl
     let t ← natOf tl
-    some (.op (.save ⟨lookupLen ls, fun _ => x, fun _ => t⟩))
+    some (.op (.save ⟨lookupLen ls, fun _ => x, fun _ => t, true⟩))
   | ["s"] => some .saveNoLayout
   | ["l", c] => do some (.reloadCheck (← boolOf c))
   | _ => none
@@ -126,7 +128,7 @@ def runOps (d : Doc Tok) : List DOp → List String → List String
     let (d', r) := step P d o
     runOps d' rest (showRes d d' r :: acc)
   | .saveNoLayout :: rest, acc =>
-    let (d', r) := step P d (.save ⟨fun _ => 0, fun _ => 0, fun _ => 0⟩)
+    let (d', r) := step P d (.save ⟨fun _ => 0, fun _ => 0, fun _ => 0, true⟩)
     match r with
     | .saved _ => runOps d' rest ("ok-but-no-layout" :: acc)
     | r => runOps d' rest (showRes d d' r :: acc)
@@ -154,20 +156,22 @@ def parseBOp (s : String) : Option BOp :=
   | ["u", id, v] => do some (.update (← natOf id) (← DrvObj.valOf v))
   | ["p"] => some .promise
   | ["f", id, v] => do some (.fulfil (← natOf id) (← DrvObj.valOf v))
-  | ["s"] => some .save
+  | ["s"] => some (.save true)
+  | ["s", t] => do some (.save (← boolOf t))
   | _ => none
 
-/-- the history through `SaveBytes.stepB`; a save answers with the bytes it appended -/
-def runB (b : SaveBytes.BDoc (List UInt8)) : List BOp → List String → List String
+/-- the history through `SaveBytes.stepB`; a successful save answers with the bytes appended since the last
+    successful save (a save that failed after writing its revision has left that revision behind: the
+    implementation shows it only with the next successful save) -/
+def runB (b : SaveBytes.BDoc (List UInt8)) (seen : Nat) : List BOp → List String → List String
   | [], acc => acc.reverse
   | o :: rest, acc =>
     let (b', r) := SaveBytes.stepB id b o
-    let a := match r with
-      | .ref i g => s!"R{i}.{g}"
-      | .failed o => o.tag
-      | .saved _ => "ok/" ++ hexOfBytes (b'.bytes.drop b.bytes.length)
-      | _ => "?"
-    runB b' rest (a :: acc)
+    match r with
+    | .saved _ => runB b' b'.bytes.length rest (("ok/" ++ hexOfBytes (b'.bytes.drop seen)) :: acc)
+    | .ref i g => runB b' seen rest (s!"R{i}.{g}" :: acc)
+    | .failed o => runB b' seen rest (o.tag :: acc)
+    | _ => runB b' seen rest ("?" :: acc)
 
 def handle (args : List String) : String :=
   match args with
@@ -194,7 +198,7 @@ def handle (args : List String) : String :=
       match reload raw false with
       | .ok d =>
         let d := { d with tr := { d.tr with info := inf } }
-        joinWith ";" (runB ⟨d, ids, []⟩ ops [])
+        joinWith ";" (runB ⟨d, ids, []⟩ 0 ops [])
       | o => s!"load-{o.tag}"
     | _, _, _, _, _, _, _, _ => "bad-request"
   | ["c09.open", file] =>
